@@ -8,6 +8,10 @@ VERIF = os.path.dirname(os.path.dirname(os.path.abspath(__file__)))
 
 
 def header(path):
+    meta = os.path.join(os.path.dirname(path), "meta.json")
+    if os.path.basename(path) == "patch.diff" and os.path.exists(meta):
+        m = json.load(open(meta))
+        return "expect", [(p, s) for p, s in m.get("expect", [])]
     first = open(path).readline().strip()
     m = re.match(r"#\s*(expect|benign):\s*(.*)$", first)
     if not m:
@@ -77,7 +81,8 @@ def baseline_keys(props):
 
 def patches_for(prop=None):
     out = []
-    for path in sorted(glob.glob(os.path.join(VERIF, "selftest", "seeded", "*.diff")) + glob.glob(os.path.join(VERIF, "selftest", "benign", "*.diff"))):
+    for path in sorted(glob.glob(os.path.join(VERIF, "selftest", "seeded", "*.diff")) + glob.glob(os.path.join(VERIF, "selftest", "benign", "*.diff"))
+                       + glob.glob(os.path.join(VERIF, "seeded", "*", "patch.diff"))):
         kind, spec = header(path)
         props = {pr for pr, _ in spec} if kind == "expect" else set(spec)
         if prop is None or prop in props:
@@ -98,7 +103,7 @@ def run(prop=None, verbose=True):
         ok, msg = run_patch(p, base)
         results.append({"patch": os.path.relpath(p, VERIF), "ok": ok, "detail": msg, "s": round(time.time() - t, 1)})
         if verbose:
-            print(("PASS " if ok else "FAIL ") + os.path.basename(p) + " :: " + msg[:300])
+            print(("PASS " if ok else "FAIL ") + os.path.relpath(p, VERIF) + " :: " + msg[:300])
     return results
 
 
